@@ -143,7 +143,7 @@ def _repl_function(c: Ctx, f: Func, e: ast.AST):
             d = f.module.defs.get(x.id)
             v_ = getattr(d, "value", None)
             if isinstance(d, (ast.Assign, ast.AnnAssign)) and v_ is not None and not any(
-                    isinstance(y, ast.Name) and y.id == x.id and isinstance(y.ctx, ast.Store) for g in f.module.funcs.values() for y in ast.walk(g.node)):
+                    isinstance(y, ast.Name) and y.id == x.id and isinstance(y.ctx, ast.Store) for g in c.p.all_funcs() if g.module is f.module for y in ast.walk(g.node)):
                 return ev(v_, text)
         raise _Unsupported
 
